@@ -42,7 +42,7 @@ func (ic *instCtx) token(a Atom) string {
 		t = "1"
 	case "COMMENT":
 		t = "origin"
-	case "USER":
+	case "USER", "TAGTEXT":
 		t = fmt.Sprintf("Usr%d", ic.n)
 	case "EMPTY?":
 		t = ""
@@ -150,6 +150,36 @@ func goSource(text string) string {
 	return "package p\n" + text
 }
 
+// hasAtomClass: some atom of the sketch has the given class; returns its provenance.
+func hasAtomClass(s Sketch, class string) (string, bool) {
+	for _, p := range s {
+		switch p := p.(type) {
+		case Atom:
+			if p.Class == class {
+				return p.Prov, true
+			}
+		case Star:
+			if pr, ok := hasAtomClass(p.Body, class); ok {
+				return pr, true
+			}
+		case Guarded:
+			if pr, ok := hasAtomClass(p.Body, class); ok {
+				return pr, true
+			}
+			if pr, ok := hasAtomClass(p.Cond, class); ok {
+				return pr, true
+			}
+		case Alt:
+			for _, o := range p.Opts {
+				if pr, ok := hasAtomClass(o, class); ok {
+					return pr, true
+				}
+			}
+		}
+	}
+	return "", false
+}
+
 func hasUnknown(s Sketch) (string, bool) {
 	for _, p := range s {
 		switch p := p.(type) {
@@ -231,6 +261,14 @@ func runTPLGo(w *World, r *Result, rel string, maxRep int) (ndecl, ninst int) {
 		}
 		if why, bad := hasUnknown(d.content); bad {
 			Undecided("template of %s at %s has a hole the evaluator cannot classify: %s", d.label, pos, why)
+		}
+		// TPL-6: the whole text of a struct tag is arbitrary text full of double quotes; in generated Go source it can
+		// only stand as a string literal produced by strconv.Quote / %q (class QSTR). Wrapped by hand in back quotes
+		// (or double quotes) it breaks the file for every tag that contains that quote character.
+		if prov, raw := hasAtomClass(d.content, "TAGTEXT"); raw {
+			r.bad("TPL-6", d.label, cons+": struct tag "+prov, pos, "the text of a struct tag ("+prov+") is written into the generated Go source without strconv.Quote / %q: a tag that contains the quote character it is wrapped in (a back quote inside a raw string, e.g. `doc:\"use `x`\"`) ends the literal early and the generated file does not parse")
+		} else {
+			r.ok("TPL-6", d.label, cons, pos, "no raw struct tag text in this template", false)
 		}
 		if prov, bad := emptyInSeparated(d.content); bad {
 			r.bad("TPL-3", d.label, cons+": list "+prov, pos, "the list "+prov+" is pre-sized and filled by a store that is skipped for some elements: the skipped slots stay empty strings and are joined with a comma, producing `a, , b` (a syntax error in the generated Go)")
